@@ -73,6 +73,7 @@ class Contract:
         self.props = []
         self.receivers = None
         self.fuel = {}
+        self.clause_props = {}      # clause label -> properties it belongs to (default: all of `props`)
         for st in node.body:
             if isinstance(st, ast.FunctionDef):
                 expr = fn_return_expr(st)
@@ -111,6 +112,8 @@ class Contract:
                     self.receivers = ast.literal_eval(st.value)
                 elif n == "fuel":
                     self.fuel = ast.literal_eval(st.value)
+                elif n == "clause_props":
+                    self.clause_props = ast.literal_eval(st.value)
                 elif n == "loops":
                     for k, v in zip(st.value.keys, st.value.values):
                         self.loops[k.value] = self.parse_loop(k.value, v)
